@@ -809,6 +809,14 @@ func (r *runner) apply(w *world, st Step) (M, bool) {
 			return M{"harness": err.Error()}, false
 		}
 		mev, _ := rep["events"].([]any)
+		// the hypothesis of the kernel-level no-assertion theorem (C13.StepOkV), evaluated by the model on this step
+		if hv, ok := rep["hyp"].(bool); ok {
+			if hv {
+				r.counts["kernel_hyp_ok:"+st.Op]++
+			} else {
+				r.counts["kernel_hyp_not_met:"+st.Op]++
+			}
+		}
 		if wv, _ := rep["wf_violation"].([]any); len(wv) > 0 {
 			return M{"what": "a coroutine of the MODEL yielded a transaction that is not well-formed (guarantee side broken)", "diff": fmt.Sprint(wv), "step": st}, false
 		}
@@ -1054,7 +1062,13 @@ func (r *runner) apply(w *world, st Step) (M, bool) {
 				r.counts["router_unmatched"]++
 			}
 		}
-		if _, _, err := r.call(M{"op": "complete", "tid": st.Tid, "seq": st.Seq, "cpl": cpl}); err != nil {
+		if crep, _, err := r.call(M{"op": "complete", "tid": st.Tid, "seq": st.Seq, "cpl": cpl}); err == nil {
+			if hv, ok := crep["hyp"].(bool); ok && hv {
+				r.counts["kernel_hyp_ok:complete"]++
+			} else if ok {
+				r.counts["kernel_hyp_not_met:complete"]++
+			}
+		} else {
 			return M{"harness": err.Error()}, false
 		}
 	case "send":
@@ -1082,7 +1096,13 @@ func (r *runner) apply(w *world, st Step) (M, bool) {
 			r.counts["send_"+string(h.sqe.Submission.Sender.Task.Mesg.Type)+"_"+st.Outcome]++
 		}
 		w.aio.EnqueueCQE(cqe)
-		if _, _, err := r.call(M{"op": "complete", "tid": st.Tid, "seq": st.Seq, "cpl": cpl}); err != nil {
+		if crep, _, err := r.call(M{"op": "complete", "tid": st.Tid, "seq": st.Seq, "cpl": cpl}); err == nil {
+			if hv, ok := crep["hyp"].(bool); ok && hv {
+				r.counts["kernel_hyp_ok:complete"]++
+			} else if ok {
+				r.counts["kernel_hyp_not_met:complete"]++
+			}
+		} else {
 			return M{"harness": err.Error()}, false
 		}
 	}
